@@ -438,6 +438,11 @@ def run_instance(inst):
                 elif isinstance(sol, list):       # MinGenSet / MinSetCover return plain lists
                     out["sol_kind"] = "list"
                     out["sol_list"], out["sol_list_types"] = numlist(sol) if all(not isinstance(x, (list, tuple)) for x in sol) else ([], [])
+                    if inst["cls"] == "MinSetCover":       # the same answer asked for as the subsets themselves
+                        try:
+                            out["sol_as_subsets"] = [list(x) for x in model.get_solution(as_subsets=True)]
+                        except BaseException as e:
+                            out["sol_as_subsets_exc"] = type(e).__name__
                 else:
                     observe_solution(sol, syn, out)
             except SystemExit:
@@ -445,6 +450,20 @@ def run_instance(inst):
             except BaseException as e:
                 out["sol_exc"] = type(e).__name__
                 out["sol_msg"] = str(e)[:160]
+            # k-models let the caller keep or drop empty routes: both answers, to be compared layer by layer
+            try:
+                import inspect as _inspect
+                _ps = _inspect.signature(model.get_solution).parameters
+                _flag = "remove_empty_paths" if "remove_empty_paths" in _ps else ("remove_empty_walks" if "remove_empty_walks" in _ps else None)
+                if _flag and out["sol_exc"] == "none":
+                    for tag, val in (("keep", False), ("drop", True)):
+                        o2 = {}
+                        observe_solution(model.get_solution(**{_flag: val}), syn, o2)
+                        out[tag + "_routes"] = o2.get("routes", [])
+                        out[tag + "_weights"] = o2.get("weights", [])
+                        out[tag + "_slacks"] = o2.get("slacks", [])
+            except BaseException as e:
+                out["keep_exc"] = type(e).__name__
             if "get2" in ops:   # second call must agree (C18)
                 try:
                     sol2 = model.get_solution()
